@@ -47,9 +47,9 @@ type BrokerCfg struct {
 
 // NetCfg controls the byte pipe between scripted clients and the broker.
 type NetCfg struct {
-	ChunkMode int `json:",omitempty"` // 0 whole packets, 1 random split, 2 byte-wise (small), 3 coalesce due packets
-	LatMaxUs  int `json:",omitempty"` // per-packet latency drawn from [LatMinUs, LatMaxUs]
-	LatMinUs  int `json:",omitempty"`
+	ChunkMode int  `json:",omitempty"` // 0 whole packets, 1 random split, 2 byte-wise (small), 3 coalesce due packets
+	LatMaxUs  int  `json:",omitempty"` // per-packet latency drawn from [LatMinUs, LatMaxUs]
+	LatMinUs  int  `json:",omitempty"`
 	ZeroLat   bool `json:",omitempty"` // half of the client's packets reach the broker in the instant they are sent
 	Seed      uint64
 }
@@ -73,6 +73,9 @@ type Will struct {
 	ExpiryS     *uint32     `json:",omitempty"`
 	ContentType *string     `json:",omitempty"`
 	User        [][2]string `json:",omitempty"`
+	RespTopic   *string     `json:",omitempty"`
+	Corr        []byte      `json:",omitempty"`
+	PFmt        *byte       `json:",omitempty"`
 }
 
 // Op is one operation of the workload (flat union; K selects the kind).
